@@ -857,8 +857,9 @@ func c03DecisionTable(c *Ctx, R string) {
 
 	// exec runs the statements under valuation v; it reports true when the iteration was
 	// left by `continue` (nothing after it happens for this entry)
-	var exec func(stmts []ast.Stmt, v c03Val, out *c03Outcome) bool
-	exec = func(stmts []ast.Stmt, v c03Val, out *c03Outcome) bool {
+	// (0 = went on, 1 = iteration left by `continue`, 2 = enclosing switch left by `break`)
+	var exec func(stmts []ast.Stmt, v c03Val, out *c03Outcome) int
+	exec = func(stmts []ast.Stmt, v c03Val, out *c03Outcome) int {
 		for _, st := range stmts {
 			switch x := st.(type) {
 			case *ast.SwitchStmt:
@@ -883,16 +884,16 @@ func c03DecisionTable(c *Ctx, R string) {
 						}
 					}
 					if hit {
-						if exec(cc.Body, v, out) {
-							return true
+						if exec(cc.Body, v, out) == 1 {
+							return 1
 						}
 						taken = true
 						break
 					}
 				}
 				if !taken && deflt != nil {
-					if exec(deflt.Body, v, out) {
-						return true
+					if exec(deflt.Body, v, out) == 1 {
+						return 1
 					}
 				}
 			case *ast.AssignStmt:
@@ -930,7 +931,7 @@ func c03DecisionTable(c *Ctx, R string) {
 							}
 						}
 					case *ast.BranchStmt:
-						if y.Tok == token.CONTINUE && y.Label == nil {
+						if (y.Tok == token.CONTINUE || y.Tok == token.BREAK) && y.Label == nil {
 							touches = true
 						}
 					case *ast.ForStmt, *ast.RangeStmt, *ast.FuncLit:
@@ -949,32 +950,35 @@ func c03DecisionTable(c *Ctx, R string) {
 						continue
 					}
 					if b {
-						if exec(x.Body.List, v, out) {
-							return true
+						if r := exec(x.Body.List, v, out); r != 0 {
+							return r
 						}
 					} else if x.Else != nil {
 						switch e := x.Else.(type) {
 						case *ast.BlockStmt:
-							if exec(e.List, v, out) {
-								return true
+							if r := exec(e.List, v, out); r != 0 {
+								return r
 							}
 						case *ast.IfStmt:
-							if exec([]ast.Stmt{e}, v, out) {
-								return true
+							if r := exec([]ast.Stmt{e}, v, out); r != 0 {
+								return r
 							}
 						}
 					}
 				}
 			case *ast.BranchStmt:
 				if x.Tok == token.CONTINUE && x.Label == nil {
-					return true
+					return 1
+				}
+				if x.Tok == token.BREAK && x.Label == nil {
+					return 2 // leaves the innermost switch of the decision region (loops are not entered)
 				}
 				out.undec += "jump inside the decision region; "
 			case *ast.ReturnStmt:
 				out.undec += "jump inside the decision region; "
 			}
 		}
-		return false
+		return 0
 	}
 
 	for bits := 0; bits < 32; bits++ {
